@@ -71,6 +71,10 @@ pub enum Op {
     Rq { src: String },
     /// `prql_to_tokens`
     Tokens { src: String },
+    /// The C binding (prqlc/bindings/prqlc-c): `compile`, or `prql_to_pl` → `pl_to_rq` →
+    /// `rq_to_sql` with the JSON documents handed from one `extern "C"` call to the next, every
+    /// result released with `result_destroy` — what the PHP, .NET, Java-JNI-style hosts do.
+    CApi { src: String, staged: bool, opts: Opts },
     /// an editor's buffer: a one-file SourceTree is parsed, its text is replaced *in place*
     /// (`String::replace_range`, same allocation) by `src`, and parsed again; observes the
     /// second parse (`prql_to_pl_tree` + `pl_to_prql`). Must equal the same with `before`
@@ -118,6 +122,7 @@ impl Op {
             Op::Fmt { .. } => "fmt",
             Op::Rq { .. } => "rq",
             Op::Tokens { .. } => "tokens",
+            Op::CApi { .. } => "c_api",
             Op::EditInPlace { .. } => "edit_in_place",
             Op::Project { .. } => "project",
             Op::SetEnv { .. } => "set_env",
@@ -139,6 +144,7 @@ impl Op {
             | Op::Fmt { src }
             | Op::Rq { src }
             | Op::EditInPlace { src, .. }
+            | Op::CApi { src, .. }
             | Op::Tokens { src } => Some(src),
             _ => None,
         }
@@ -153,6 +159,7 @@ impl Op {
             | Op::Fmt { src }
             | Op::Rq { src }
             | Op::EditInPlace { src, .. }
+            | Op::CApi { src, .. }
             | Op::Tokens { src } => Some(src),
             _ => None,
         }
@@ -160,6 +167,7 @@ impl Op {
     pub fn opts_mut(&mut self) -> Option<&mut Opts> {
         match self {
             Op::Compile { opts, .. }
+            | Op::CApi { opts, .. }
             | Op::Staged { opts, .. }
             | Op::StagedJson { opts, .. }
             | Op::StagedRqEdit { opts, .. }
@@ -561,6 +569,7 @@ fn do_op(op: &Op) -> Obs {
                 Err(e) => Obs::err(err_json_tree(&e, &tree)),
             }
         }
+        Op::CApi { src, staged, opts } => c_api(src, *staged, opts),
         Op::Tokens { src } => match prqlc::prql_to_tokens(src) {
             Ok(t) => Obs::ok(format!("{t:?}")),
             Err(e) => Obs::err(err_json(&e)),
@@ -678,5 +687,98 @@ pub fn perform(op: &Op) -> Obs {
     match std::panic::catch_unwind(std::panic::AssertUnwindSafe(|| do_op(op))) {
         Ok(o) => o,
         Err(_) => Obs::panic(crate::seams::last_panic()),
+    }
+}
+
+
+/// The repository's C binding, compiled into the simulator (see build.rs).
+#[allow(dead_code, clippy::all, unsafe_op_in_unsafe_fn)]
+mod prqlc_c {
+    include!(concat!(env!("OUT_DIR"), "/prqlc_c.rs"));
+}
+
+/// Everything a C host can read from a `CompileResult`, as text; then `result_destroy`.
+unsafe fn c_result_text(res: prqlc_c::CompileResult) -> (bool, String) {
+    use std::ffi::CStr;
+    let cs = |p: *const libc::c_char| -> String {
+        if p.is_null() {
+            "<null>".to_string()
+        } else {
+            CStr::from_ptr(p).to_string_lossy().into_owned()
+        }
+    };
+    let opt = |p: *const *const libc::c_char| -> serde_json::Value {
+        if p.is_null() {
+            serde_json::Value::Null
+        } else {
+            serde_json::Value::String(cs(*p))
+        }
+    };
+    let ok = res.messages_len == 0;
+    let text = if ok {
+        cs(res.output)
+    } else {
+        let mut v = Vec::new();
+        for i in 0..res.messages_len {
+            let m = &*res.messages.add(i);
+            v.push(serde_json::json!({
+                "kind": match m.kind { prqlc_c::MessageKind::Error => "Error", prqlc_c::MessageKind::Warning => "Warning", prqlc_c::MessageKind::Lint => "Lint" },
+                "code": opt(m.code),
+                "reason": cs(m.reason),
+                "hint": opt(m.hint),
+                "span": if m.span.is_null() { serde_json::Value::Null } else { serde_json::json!([(*m.span).start, (*m.span).end]) },
+                "display": opt(m.display),
+                "location": if m.location.is_null() { serde_json::Value::Null } else {
+                    let l = &*m.location;
+                    serde_json::json!([l.start_line, l.start_col, l.end_line, l.end_col])
+                },
+            }));
+        }
+        format!("OUT {} MSG {}", cs(res.output), serde_json::Value::Array(v))
+    };
+    prqlc_c::result_destroy(res);
+    (ok, text)
+}
+
+fn c_api(src: &str, staged: bool, opts: &Opts) -> Obs {
+    use std::ffi::CString;
+    let Ok(csrc) = CString::new(src.replace('\0', " ")) else {
+        return Obs::err("NUL".into());
+    };
+    let Ok(ctarget) = CString::new(opts.target.clone()) else {
+        return Obs::err("NUL".into());
+    };
+    let copts = prqlc_c::Options {
+        format: opts.format,
+        target: ctarget.as_ptr() as *mut libc::c_char,
+        signature_comment: opts.sig,
+    };
+    unsafe {
+        if !staged {
+            let (ok, text) = c_result_text(prqlc_c::compile(csrc.as_ptr(), &copts));
+            return if ok { Obs::ok(text) } else { Obs::err(text) };
+        }
+        let mut all = String::new();
+        let (ok, pl) = c_result_text(prqlc_c::prql_to_pl(csrc.as_ptr()));
+        if !ok {
+            return Obs::err(pl);
+        }
+        all.push_str("PL ");
+        all.push_str(&canonical_json(&pl));
+        let cpl = CString::new(pl).unwrap_or_default();
+        let (ok, rq) = c_result_text(prqlc_c::pl_to_rq(cpl.as_ptr()));
+        if !ok {
+            return Obs::err(rq);
+        }
+        all.push_str("\nRQ ");
+        all.push_str(&rq);
+        let crq = CString::new(rq).unwrap_or_default();
+        let (ok, sql) = c_result_text(prqlc_c::rq_to_sql(crq.as_ptr(), &copts));
+        if !ok {
+            return Obs::err(format!("{all}\n{sql}"));
+        }
+        all.push_str("\nSQL ");
+        all.push_str(&sql);
+        Obs::ok(all)
     }
 }
